@@ -48,6 +48,7 @@ type c19Input struct {
 	KeySeed  uint64   `json:"key_seed"`                               // keys are regenerated from (key_seed, nkeys)
 	NKeys    int      `json:"nkeys"`                                  //
 	KeysHex  []string `json:"keys_hex,omitempty"`                     // explicit keys (hex), probed through Continuum.Hash
+	GoKeys   int      `json:"keys_screened_in_go_only,omitempty"`     // a further key sample (from key_seed) routed through every continuum of the case: share statistic, screened by the harness only (a finding becomes a reduced case judged by Coq)
 	Hashes   []uint32 `json:"hashes,omitempty"`                       // explicit ring locations, probed through Continuum.Bucket
 	// informational (ignored on replay)
 	Nodes          int      `json:"nodes"`
@@ -175,6 +176,7 @@ type c19Group struct {
 	shareMin              float64 // min over nodes of share*n (1.0 = ideal), -1 if no key sample
 	shareMax              float64
 	zeroNode              string // a node with points and no key of the sample
+	shareKeys             int    // size of the key sample the shares were measured on
 	nBoundary, nKeyProbes int
 	err                   error
 }
@@ -706,7 +708,9 @@ func c19FindCollision(r *rig.Rand) (a, b string, p uint32, ok bool) {
 
 func c19(e *env) {
 	w := rig.NewWriter(e.out, "C19", e.tier, e.seed)
-	r := rig.NewRand(e.seed)
+	// rig.NewRand(s) and rig.NewRand(s+1) are the same stream shifted by one draw; seed a second
+	// generator with the first one's output so that different seeds explore different node sets
+	r := rig.NewRand(rig.NewRand(e.seed).U64())
 	var groups []c19Group
 	thorough := e.tier == "thorough"
 
